@@ -173,7 +173,7 @@ def run_harnesses(groups, repo, workdir, tier="quick", seed=0):
             results[n], details[n], stats[n] = cached[n]["result"], cached[n]["details"], cached[n]["stats"]
     res["cached"] = [n for n in names if n in cached]
     if todo:
-        r = run_kani(todo, repo, workdir, timeout_per=int(os.environ.get("VERIF_HARNESS_TIMEOUT", "300" if tier == "quick" else "1500")))
+        r = run_kani(todo, repo, workdir, timeout_per=int(os.environ.get("VERIF_HARNESS_TIMEOUT", "900" if tier == "quick" else "1800")))
         res["cmd"] = r["cmd"]
         data = r["data"]
         if data is None:
